@@ -213,3 +213,107 @@ func runFl(its [][]string) string {
 	}
 	return fmt.Sprintf("early=%d ret=%d", bi(early), bi(ret))
 }
+
+// ---- cancellation in the middle of a flush ------------------------------------------------------------
+//
+// `flx A B i j`: the flusher's context is cancelled while backend j is being handed aggregator i's map.
+// Every pair must still be handed the map (each answers exactly once, as soon as all are registered)
+// and the flusher must then return.
+
+type flxBackend struct {
+	id     int
+	ci, cj int
+	cancel context.CancelFunc
+	mu     *sync.Mutex
+	cbs    *[]gostatsd.SendCallback
+}
+
+func (b *flxBackend) Name() string                                           { return "fakex" + strconv.Itoa(b.id) }
+func (b *flxBackend) SendEvent(ctx context.Context, e *gostatsd.Event) error { return nil }
+func (b *flxBackend) SendMetricsAsync(ctx context.Context, mm *gostatsd.MetricMap, cb gostatsd.SendCallback) {
+	agg := -1
+	for name := range mm.Gauges {
+		if strings.HasPrefix(name, "agg") {
+			agg, _ = strconv.Atoi(name[3:])
+		}
+	}
+	if agg == b.ci && b.id == b.cj {
+		b.cancel()
+	}
+	b.mu.Lock()
+	*b.cbs = append(*b.cbs, cb)
+	b.mu.Unlock()
+}
+
+func runFlx(h []string) string {
+	if len(h) != 5 {
+		return "BAD_CASE"
+	}
+	a, _ := strconv.Atoi(h[1])
+	nb, _ := strconv.Atoi(h[2])
+	ci, _ := strconv.Atoi(h[3])
+	cj, _ := strconv.Atoi(h[4])
+	if a < 1 || nb < 1 {
+		return "BAD_CASE"
+	}
+	mock := clock.NewMock(time.Unix(1700000000, 0))
+	ctx, cancel := context.WithCancel(clock.Context(context.Background(), mock))
+	defer cancel()
+	var mu sync.Mutex
+	cbs := []gostatsd.SendCallback{}
+	backends := make([]gostatsd.Backend, nb)
+	for i := range backends {
+		backends[i] = &flxBackend{id: i, ci: ci, cj: cj, cancel: cancel, mu: &mu, cbs: &cbs}
+	}
+	fl := statsd.NewMetricFlusher(time.Second, 0, false, flProc{a}, backends)
+	var gid atomic.Int64
+	done := make(chan struct{})
+	go func() {
+		gid.Store(goid())
+		defer close(done)
+		fl.Run(ctx)
+	}()
+	t0 := time.Now()
+	for {
+		st, stack := goroutineInfo(gid.Load())
+		if gid.Load() != 0 && st == "select" && strings.Contains(stack, "(*MetricFlusher).Run") {
+			break
+		}
+		if time.Since(t0) > deadline {
+			return "HANG start"
+		}
+		time.Sleep(200 * time.Microsecond)
+	}
+	mock.Add(time.Second)
+	// come to rest: all pairs registered, or the flusher parked in sendWg.Wait() with fewer
+	t0 = time.Now()
+	for {
+		mu.Lock()
+		n := len(cbs)
+		mu.Unlock()
+		if n >= a*nb {
+			break
+		}
+		st, stack := goroutineInfo(gid.Load())
+		if (st == "semacquire" || st == "sync.WaitGroup.Wait") && strings.Contains(stack, "sync.(*WaitGroup).Wait") && strings.Contains(stack, "flushData") {
+			break
+		}
+		if time.Since(t0) > deadline {
+			break
+		}
+		time.Sleep(200 * time.Microsecond)
+	}
+	mu.Lock()
+	got := append([]gostatsd.SendCallback(nil), cbs...)
+	mu.Unlock()
+	for _, cb := range got {
+		cb(nil)
+	}
+	returned := 0
+	select {
+	case <-done:
+		returned = 1
+	case <-time.After(3 * time.Second):
+	}
+	return fmt.Sprintf("reg=%d/%d returned=%d", len(got), a*nb, returned)
+}
